@@ -60,6 +60,7 @@ class Check:
         self.assumptions = []
         self.quiet = quiet
         self.files = {}
+        self.selftest = None
 
     # ---- declaring
     def rule(self, rid, text, floor=0):
@@ -221,6 +222,7 @@ class Check:
                 "known_findings_matched": sorted({o.key() for o in known}),
                 "files_consulted": digests,
                 "notes": self.notes,
+                "selftest": self.selftest,
             },
             "assumptions": self.assumptions or [
                 "the primitive models of jax/jax.numpy/equinox in jv/extern.py and jv/alg.py are faithful",
